@@ -22,20 +22,20 @@ type Drv struct {
 	CancelAny bool // an extra thread cancels the run at whatever point it is scheduled
 	held      []core.Ammo
 
-	IDOf       func(a core.Ammo) (uint64, bool)
-	IDs        []uint64
-	Items      []any // extracted records in delivery order
-	ByConsumer [][]any
-	RunErr     error
-	RunDone    bool
-	RunPanic   string
-	ConsPanic  string
-	Falses     int  // consumers that observed ok=false
-	AfterFalse bool // an Acquire after ok=false returned ok=true
-	Cancelled  bool
-	exited     int
+	IDOf             func(a core.Ammo) (uint64, bool)
+	IDs              []uint64
+	Items            []any // extracted records in delivery order
+	ByConsumer       [][]any
+	RunErr           error
+	RunDone          bool
+	RunPanic         string
+	ConsPanic        string
+	Falses           int  // consumers that observed ok=false
+	AfterFalse       bool // an Acquire after ok=false returned ok=true
+	Cancelled        bool
+	exited           int
 	StepsAfterCancel int // Acquire calls that returned ok=true after the cancel
-	Log        *zap.Logger
+	Log              *zap.Logger
 }
 
 func (d *Drv) Start(ctx context.Context, cancel func()) {
